@@ -371,6 +371,11 @@ pub fn builtin_avg(arr: Vec<f64>, onEmpty: Option<Thunk<Val>>) -> Result<Val> {
 
 #[builtin]
 pub fn builtin_remove_at(arr: ArrValue, at: i32) -> Result<ArrValue> {
+	// As in the std.jsonnet definition, nothing is removed when the index is outside of the array,
+	// negative index should not be interpreted as an offset from the end by the slices below
+	if at < 0 || at as usize >= arr.len() {
+		return Ok(arr);
+	}
 	let newArrLeft = arr.clone().slice(None, Some(at), None);
 	let newArrRight = arr.slice(Some(at + 1), None, None);
 
